@@ -42,6 +42,8 @@ static __u32 ref_crc(__u32 crc, unsigned char const *p, size_t len)
 	/* STUB: (queries that do not check crc values) crc = seed ^ length ^ first byte */
 	return crc ^ (__u32) len ^ p[0];
 #endif
+	if (vf_light)	/* light phase: crc values are not modelled */
+		return crc ^ (__u32) len ^ p[0];
 	if (len <= TDS) {
 		for (i = 0; i < TDS; i++)
 			if (i < len)
